@@ -218,6 +218,29 @@ Theorem dial_ok_connects s id a :
   conns (cstep s (DialOk id)) = conns s ++ [(id, a)].
 Proof. intros H1 H2. cbn [cstep]. rewrite H1, H2. reflexivity. Qed.
 
+Lemma task_stage_set l id st st' : task_stage l id = Some st -> task_stage (task_set l id st') id = Some st'.
+Proof.
+  induction l as [|[i x] t IH]; cbn [task_stage task_set]; [discriminate|].
+  destruct (i =? id) eqn:E; intros H; cbn [task_stage]; rewrite E; [reflexivity|exact (IH H)].
+Qed.
+
+(* a request that was not canceled moves on under the event of its stage: Created -> WaitAddr ->
+   Dialing a -> connection *)
+Theorem request_progress s id :
+  (task_stage (tasks s) id = Some Created ->
+     task_stage (tasks (cstep s (Registered id))) id = Some WaitAddr /\ zmem id (pend (cstep s (Registered id))) = true) /\
+  (forall a, task_stage (tasks s) id = Some WaitAddr -> zmem id (pend s) = true ->
+     task_stage (tasks (cstep s (AddrOk id a))) id = Some (Dialing a)) /\
+  (forall a, task_stage (tasks s) id = Some (Dialing a) -> zmem id (pend s) = true ->
+     conns (cstep s (DialOk id)) = conns s ++ [(id, a)]).
+Proof.
+  split; [|split].
+  - intros H. cbn [cstep]. rewrite H. cs. split; [apply (task_stage_set _ _ _ _ H)|].
+    unfold zadd. destruct (zmem id (pend s)) eqn:E; [exact E|]. cbn [zmem existsb]. rewrite Z.eqb_refl. reflexivity.
+  - intros a H1 H2. cbn [cstep]. rewrite H1, H2. cs. apply (task_stage_set _ _ _ _ H1).
+  - intros a H1 H2. apply dial_ok_connects; assumption.
+Qed.
+
 (* an outbound connection that closes is replaced by a new request - unless the failure counter of
    its address reaches the threshold, in which case the address is banned and NOTHING replaces it *)
 Theorem replaces_closed T mf evs id a :
